@@ -74,13 +74,13 @@ Proof.
   unfold wr_ok in Hw. rewrite Hc in Hw. split; assumption.
 Qed.
 
-Lemma kside_of L : (N.of_nat L <= 100000)%N -> kside c k L.
-Proof. intros H. unfold kside. rewrite Hk. split; assumption. Qed.
+Lemma kside_of L : kside c k L.
+Proof. unfold kside. rewrite Hk. exact Hsfx. Qed.
 
 (* ---- one rotation with a budget: rename, create, cleanup ---- *)
 Lemma mount_next_kk q wr closed roll force j :
   NumKInv c q wr closed (k_lo k (length closed)) (k_mid k (length closed)) ->
-  force || rotation_necessary q roll = true -> (N.of_nat (S (length closed)) <= 100000)%N ->
+  force || rotation_necessary q roll = true ->
   exists r w' st',
     mount_next c (kw q (S j)) (Active (Some (mk_rsk k (NSNumR (N.of_nat (length closed))) roll)) wr (cname c)) force = (r, w', st') /\
     ( (exists q' j' wr' roll', w' = kw q' (S j') /\ r = Ok tt
@@ -91,7 +91,7 @@ Lemma mount_next_kk q wr closed roll force j :
       \/ (exists qd cl oc, w' = kw qd 0 /\ quiet qd /\ XD c k (wfs qd) cl oc
             /\ concat cl ++ ocb oc = concat closed ++ cur_view q wr /\ length cl <= S (length closed)) ).
 Proof.
-  intros I Hnec HL. pose proof Hcfg as (Hrot & Hts & Hlink & Has & Hbg).
+  intros I Hnec. pose proof Hcfg as (Hrot & Hts & Hlink & Has & Hbg).
   pose proof I as [Q W Hc Hcp KD Hwr Hcapw]. destruct (direct_wr_k q wr closed _ _ I) as [Hp Hc0].
   set (L := length closed) in *.
   destruct (kdir_rotate c (wfs q) closed _ _ (wino wr) (wpend wr) (wnow q) W KD Hc Hcp) as (Ht & f1 & Er & L1c & R).
@@ -161,8 +161,7 @@ Proof.
       - apply kdir_xdir; [exact KD3|]. exists new. split; [exact L3c|]. rewrite Inew. split; [split; reflexivity|].
         unfold content. rewrite Inew. reflexivity.
       - apply same_at_refl. }
-    assert (HL' : (N.of_nat (length closed') <= 100000)%N) by (rewrite EL; exact HL).
-    destruct (cleanup_budget c crit k n m q2 closed' (Some []) j' Hcfg Hk Hsfx HL' Q2 K2)
+    destruct (cleanup_budget c crit k n m q2 closed' (Some []) j' Hcfg Hk Hsfx Q2 K2)
       as (rc & w4 & Ec & [(f' & j2 & -> & -> & K4) | (f' & lo & mid & red & -> & K4 & U4)]).
     + rewrite Ec. eexists _, _, _. split; [reflexivity|]. left.
       exists (set_fs q2 f'), j2, wr', (reset_size_and_date (kw q2 (S j')) roll (cname c)).
@@ -209,7 +208,6 @@ Qed.
 (* ---- a write on an active writer with a budget: every kill point ---- *)
 Lemma write_active_kk q wr cl roll b j :
   NumKInv c q wr cl (k_lo k (length cl)) (k_mid k (length cl)) -> roll_size_ok roll (length (cur_view q wr)) ->
-  (N.of_nat (S (length cl)) <= 100000)%N ->
   exists r w' s' rot', write_buffer (st_ofk c k (length cl) roll wr) (kw q (S j)) b = (r, w', s', rot') /\
   ( (exists q' j' wr' roll' cl', w' = kw q' (S j') /\ r = Ok tt /\ s' = st_ofk c k (length cl') roll' wr'
        /\ rot' = rotation_necessary q roll
@@ -219,11 +217,11 @@ Lemma write_active_kk q wr cl roll b j :
     \/ (exists qd cld oc, w' = kw qd 0 /\ quiet qd /\ XD c k (wfs qd) cld oc
           /\ concat cld ++ ocb oc = concat cl ++ cur_view q wr /\ length cld <= S (length cl)) ).
 Proof.
-  intros I Hsz HL. destruct (direct_wr_k q wr cl _ _ I) as [Hp Hc0]. pose proof (nk_quiet _ _ _ _ _ _ I) as Q.
+  intros I Hsz. destruct (direct_wr_k q wr cl _ _ I) as [Hp Hc0]. pose proof (nk_quiet _ _ _ _ _ _ I) as Q.
   unfold write_buffer, st_ofk. cbn [f_cfg f_inner f_poisoned mk_rsk rs_roll]. rewrite rot_nec_kw.
   destruct (rotation_necessary q roll) eqn:Er.
   - (* the write rotates first *)
-    destruct (mount_next_kk q wr cl roll false j I) as (r1 & w1 & st1 & E1 & M); [cbn [orb]; exact Er | exact HL|].
+    destruct (mount_next_kk q wr cl roll false j I) as (r1 & w1 & st1 & E1 & M); [cbn [orb]; exact Er|].
     rewrite E1.
     destruct M as [(q1 & j1 & wr1 & roll1 & -> & -> & -> & I1 & V1 & Z1 & S1 & R1) | (qd & cld & oc & -> & Qd & Xd & Fl & Len)].
     + cbv beta iota zeta.
@@ -341,7 +339,7 @@ Proof.
       - unfold wr_ok, wr. cbn. destruct (c_cap c); [lia | reflexivity].
       - reflexivity. }
     rewrite Ecl. change (ns_filter (NSNumR 0)) with IFNum. change (naming_writes_direct NNumbers) with false.
-    rewrite (cleanup_budget_noop c crit k n m q2 [] 0 0 (S j') Hcfg Hk Hsfx ltac:(cbn; lia) Q2 (nk_dir _ _ _ _ _ _ I2) ltac:(cbn; lia)).
+    rewrite (cleanup_budget_noop c crit k n m q2 [] 0 0 (S j') Hcfg Hk Hsfx Q2 (nk_dir _ _ _ _ _ _ I2) ltac:(cbn; lia)).
     cbn [bind]. rewrite Ebg.
     exists q2, wr, roll. split; [reflexivity|]. split; [exact I2|].
     split. { unfold cur_view, content, inode. rewrite F2. reflexivity. }
@@ -370,15 +368,15 @@ Qed.
 
 (* ---- a write, from either kind of state ---- *)
 Lemma write_rel_kk x a b q j :
-  s_w x = kw q (S j) -> RelK c crit k (with_w x q) a -> (N.of_nat (S (apot a)) <= 100000)%N ->
+  s_w x = kw q (S j) -> RelK c crit k (with_w x q) a ->
   exists s r w' s' rot, s_flw x = Some s /\ f_poisoned s = false /\
     write_buffer s (s_w x) b = (r, w', s', rot) /\
     ( (r = Ok tt /\ KRelK {| s_flw := Some s'; s_w := w'; s_tl := []; s_dead := s_dead x |} (a_step a (OWrite b) rot))
       \/ (exists cl oc, DeadK c k w' cl oc /\ concat cl ++ ocb oc = flat a /\ length cl <= S (apot a)) ).
 Proof.
-  intros Ew [Ht [Ha R]] HL. cbn [with_w s_tl s_w s_flw] in Ht, Ha, R. rewrite Ew. destruct a as [[cl cu]|].
-  - destruct R as [wr [roll [Es [I [V [Z RS]]]]]]. rewrite <- V in Z. cbn [apot] in HL.
-    destruct (write_active_kk q wr cl roll b j I Z HL) as [r [w' [s' [rot' [E Out]]]]].
+  intros Ew [Ht [Ha R]]. cbn [with_w s_tl s_w s_flw] in Ht, Ha, R. rewrite Ew. destruct a as [[cl cu]|].
+  - destruct R as [wr [roll [Es [I [V [Z RS]]]]]]. rewrite <- V in Z.
+    destruct (write_active_kk q wr cl roll b j I Z) as [r [w' [s' [rot' [E Out]]]]].
     exists (st_ofk c k (length cl) roll wr), r, w', s', rot'. split; [exact Es|]. split; [reflexivity|]. split; [exact E|].
     destruct Out as [[q' [j' [wr' [roll' [cl' [-> [-> [-> [-> [I' [Z' [S' [V' R']]]]]]]]]]]]] | [qd [cld [oc [-> [Qd [Xd [Fl Len]]]]]]]].
     + left. split; [reflexivity|]. exists q', j'. split; [reflexivity|].
@@ -400,7 +398,7 @@ Proof.
       assert (Z0 : roll_size_ok roll (length (cur_view q1 wr))) by (rewrite V; exact Z).
       assert (I0 : NumKInv c q1 wr [] (k_lo k (length (@nil bytes))) (k_mid k (length (@nil bytes))))
         by (cbn [length]; rewrite k_lo_0, k_mid_0; exact I).
-      destruct (write_active_kk q1 wr [] roll b j' I0 Z0 ltac:(cbn; lia)) as [r [w' [s' [rot' [E Out]]]]].
+      destruct (write_active_kk q1 wr [] roll b j' I0 Z0) as [r [w' [s' [rot' [E Out]]]]].
       exists (new_flw c), r, w', s', rot'. split; [exact Es|]. split; [reflexivity|].
       split. { rewrite (write_buffer_init c (kw q (S (S j'))) b _ _ _ (kw q1 (S j')) Ei). exact E. }
       destruct Out as [[q' [j2 [wr' [roll' [cl' [-> [-> [-> [-> [I' [Z' [S' [V' R']]]]]]]]]]]]] | [qd [cld [oc [-> [Qd [Xd [Fl Len]]]]]]]].
@@ -429,15 +427,15 @@ Qed.
 
 (* ---- one basic operation of a process with a budget: it either completes (and is acknowledged), or the process dies
         in it, and then the directory holds a tail of what was acknowledged before ---- *)
-Lemma kstep_k x a o : KRelK x a -> basic_op o -> (N.of_nat (S (apot a)) <= 100000)%N ->
+Lemma kstep_k x a o : KRelK x a -> basic_op o ->
   let '(x', ob) := step x o in
   (alive (s_w x') = true /\ KRelK x' (a_step a o (rot_of ob)))
   \/ (alive (s_w x') = false /\ exists cl oc, DeadK c k (s_w x') cl oc /\ concat cl ++ ocb oc = flat a /\ length cl <= S (apot a)).
 Proof.
-  intros K Hb HL. rewrite (step_sync_kk x a o K). destruct K as [q [j [Ew R]]].
+  intros K Hb. rewrite (step_sync_kk x a o K). destruct K as [q [j [Ew R]]].
   destruct o; try contradiction; cbn [sync_step].
   - (* OWrite *)
-    destruct (write_rel_kk x a b q j Ew R HL) as [s [r [w' [s' [rot [Es [Hp [E Out]]]]]]]].
+    destruct (write_rel_kk x a b q j Ew R) as [s [r [w' [s' [rot [Es [Hp [E Out]]]]]]]].
     rewrite Es, Hp. pose proof (proj1 R) as Ht. cbn [with_w s_tl] in Ht. rewrite Ht. cbn [app]. rewrite E. cbn [rot_of].
     destruct Out as [[-> K'] | [cl [oc [D [Fl Len]]]]].
     + left. split; [|exact K']. destruct K' as [q' [j' [E' _]]]. cbn [s_w] in E' |- *. rewrite E'. reflexivity.
@@ -445,7 +443,7 @@ Proof.
       assert (Ew' : match r with Err => report EWrite w' | _ => w' end = w') by (destruct r; try reflexivity; apply report_dead; apply D).
       rewrite Ew'. split; [apply dead_not_alive; apply D|]. exists cl, oc. auto.
   - (* OPlain *)
-    destruct (write_rel_kk x a b q j Ew R HL) as [s [r [w' [s' [rot [Es [Hp [E Out]]]]]]]].
+    destruct (write_rel_kk x a b q j Ew R) as [s [r [w' [s' [rot [Es [Hp [E Out]]]]]]]].
     rewrite Es, Hp, E. cbn [rot_of]. pose proof (proj1 R) as Ht. cbn [with_w s_tl] in Ht. rewrite Ht.
     destruct Out as [[-> K'] | [cl [oc [D [Fl Len]]]]].
     + left. split; [|exact K']. destruct K' as [q' [j' [E' _]]]. cbn [s_w] in E' |- *. rewrite E'. reflexivity.
@@ -464,8 +462,7 @@ Proof.
   - (* OTrigger *)
     destruct R as [Ht [Ha R]]. cbn [with_w s_tl s_w s_flw] in Ht, Ha, R. destruct a as [[cl cu]|].
     + destruct R as [wr [roll [Es [I [V [Z RS]]]]]]. rewrite Es. cbn [st_ofk f_poisoned f_cfg f_inner]. rewrite Ew.
-      cbn [apot] in HL.
-      destruct (mount_next_kk q wr cl roll true j I eq_refl HL) as (r1 & w1 & st1 & E1 & M). rewrite E1.
+      destruct (mount_next_kk q wr cl roll true j I eq_refl) as (r1 & w1 & st1 & E1 & M). rewrite E1.
       destruct M as [(q1 & j1 & wr1 & roll1 & -> & -> & -> & I1 & V1 & Z1 & S1 & R1) | (qd & cld & oc & -> & Qd & Xd & Fl & Len)].
       * left. cbn [rot_of a_step code_of with_inner f_cfg f_poisoned s_w]. split; [reflexivity|].
         exists q1, j1. split; [reflexivity|]. split; [exact Ht|]. split; [cbn [with_w s_w]; exact (same_env_acts _ _ S1 Ha)|].
@@ -493,18 +490,18 @@ Qed.
 
 
 (* ---- the operations after the counter has been armed ---- *)
-Lemma krun_k : forall ops x a, KRelK x a -> Forall basic_op ops -> (N.of_nat (S (apot a + length ops)) <= 100000)%N ->
+Lemma krun_k : forall ops x a, KRelK x a -> Forall basic_op ops ->
   (exists a', KRelK (fst (run x ops)) a' /\ flat a' = flat a ++ acked x ops /\ apot a' <= apot a + length ops)
   \/ (exists cl oc, DeadK c k (s_w (fst (run x ops))) cl oc /\ concat cl ++ ocb oc = flat a ++ acked x ops
                 /\ length cl <= S (apot a + length ops)).
 Proof.
-  induction ops as [|o r IH]; intros x a K Hb HL.
+  induction ops as [|o r IH]; intros x a K Hb.
   - left. exists a. cbn [run fst acked length]. rewrite app_nil_r. split; [exact K|]. split; [reflexivity | lia].
   - inversion Hb as [|o' r' Ho Hr]; subst. rewrite fst_run_cons. cbn [acked length] in *.
-    pose proof (kstep_k x a o K Ho ltac:(lia)) as S. destruct (step x o) as [x1 ob] eqn:Est. cbn [fst].
+    pose proof (kstep_k x a o K Ho) as S. destruct (step x o) as [x1 ob] eqn:Est. cbn [fst].
     pose proof (a_step_apot a o (rot_of ob)) as Hpot.
     destruct S as [[Al K1] | [Al [cl [oc [D [Fl Len]]]]]]; rewrite Al.
-    + destruct (IH x1 _ K1 Hr ltac:(lia)) as [[a' [K' [F' P']]] | [cl [oc [D [F' P']]]]].
+    + destruct (IH x1 _ K1 Hr) as [[a' [K' [F' P']]] | [cl [oc [D [F' P']]]]].
       * left. exists a'. split; [exact K'|]. split.
         -- rewrite F', a_step_flat by exact Ho. rewrite app_assoc. reflexivity.
         -- lia.
@@ -549,21 +546,20 @@ Qed.
 
 (* ---- the whole history of the killed process ---- *)
 Lemma kill_history_k t0 off ops1 kp ops2 : Forall basic_op ops1 -> Forall basic_op ops2 ->
-  (N.of_nat (S (length ops1 + length ops2)) <= 100000)%N ->
   exists cl oc, IdleK (fst (run (sys0 t0 off) (OStart c :: ops1 ++ [OSetKill kp] ++ ops2 ++ [OCrash]))) cl oc
     /\ concat cl ++ ocb oc = written ops1 ++ acked (fst (run (sys0 t0 off) (OStart c :: ops1 ++ [OSetKill kp]))) ops2
     /\ length cl <= S (length ops1 + length ops2).
 Proof.
-  intros Hb1 Hb2 HL. rewrite !fst_run_cons, !fst_run_app, !fst_run_cons. cbn [run fst].
+  intros Hb1 Hb2. rewrite !fst_run_cons, !fst_run_app, !fst_run_cons. cbn [run fst].
   pose proof (start_rel_k c crit k t0 off) as R0. set (x0 := fst (step (sys0 t0 off) (OStart c))) in *.
   pose proof (a_run_apot ops1 None (snd (run x0 ops1))) as P1. cbn [apot] in P1.
   assert (Hs1 : kside c k (nclosed (a_run None ops1 (snd (run x0 ops1))))).
-  { apply kside_of. change (nclosed (a_run None ops1 (snd (run x0 ops1)))) with (apot (a_run None ops1 (snd (run x0 ops1)))). lia. }
+  { apply kside_of. }
   pose proof (run_rel_k c crit k Hcfg ops1 x0 None R0 Hb1 Hs1) as R1. pose proof (run_length ops1 x0) as L1.
   pose proof (a_run_flat ops1 None (snd (run x0 ops1)) Hb1 L1) as F1. cbn [flat app] in F1.
   set (x1 := fst (run x0 ops1)) in *. set (a1 := a_run None ops1 (snd (run x0 ops1))) in *.
   pose proof (arm_krelk x1 a1 kp R1) as K2. set (x2 := fst (step x1 (OSetKill kp))) in *.
-  destruct (krun_k ops2 x2 a1 K2 Hb2 ltac:(lia)) as [[a' [K' [F' P']]] | [cl [oc [D [F' P']]]]].
+  destruct (krun_k ops2 x2 a1 K2 Hb2) as [[a' [K' [F' P']]] | [cl [oc [D [F' P']]]]].
   - destruct (crash_alive_k _ a' K') as [cl [oc [Id [Fv Lv]]]]. exists cl, oc. split; [exact Id|].
     split; [rewrite Fv, F', F1; reflexivity | lia].
   - exists cl, oc. split; [apply crash_dead_k; exact D|]. split; [rewrite F', F1; reflexivity | lia].
@@ -581,11 +577,10 @@ End Direct.
    lo <= length closed - (n + m): every record that a completed cleanup would have kept is there, none twice.
    An unfinished archive (gzip state 2) occurs only next to its intact original and is ignored by the reader; a complete
    archive next to its original holds the same content (the reader takes one of the two).
-   Side conditions as for C07: the suffix does not end with .gz, fewer than 100000 operations. *)
+   Side condition as for C07: the suffix does not end with .gz (no bound on the number of operations). *)
 Theorem numbers_cleanup_kill_keeps_acked c crit k n m t0 off ops1 kp ops2 :
   numkcfg c crit k -> klim k = Some (n, m) -> c_cap c = None -> sfx_ok (c_spec c) ->
   Forall basic_op ops1 -> Forall basic_op ops2 ->
-  (N.of_nat (S (length ops1 + length ops2)) <= 100000)%N ->
   let x1 := fst (run (sys0 t0 off) (OStart c :: ops1 ++ [OSetKill kp])) in
   let xe := fst (run (sys0 t0 off) (OStart c :: ops1 ++ [OSetKill kp] ++ ops2 ++ [OCrash])) in
   exists closed ocur lo,
@@ -594,8 +589,8 @@ Theorem numbers_cleanup_kill_keeps_acked c crit k n m t0 off ops1 kp ops2 :
     /\ lo <= length closed - (n + m)
     /\ written ops1 ++ acked x1 ops2 = concat (firstn lo closed) ++ kv_stream closed ocur lo.
 Proof.
-  intros Hcfg Hk Hcap Hsfx Hb1 Hb2 HL x1 xe.
-  destruct (kill_history_k c crit k n m Hcfg Hk Hcap Hsfx t0 off ops1 kp ops2 Hb1 Hb2 HL) as (cl & oc & Id & F & _).
+  intros Hcfg Hk Hcap Hsfx Hb1 Hb2 x1 xe.
+  destruct (kill_history_k c crit k n m Hcfg Hk Hcap Hsfx t0 off ops1 kp ops2 Hb1 Hb2) as (cl & oc & Id & F & _).
   destruct Id as (_ & _ & _ & _ & (lo & mid & red & W & Nd & X & U)). fold xe in X. fold x1 in F.
   exists cl, oc, lo. split; [exact (xdir_kill_view c _ cl oc lo mid red X)|]. split; [exact F|].
   split. { destruct U as [U _]. unfold k_lo in U. rewrite Hk in U. exact U. }
